@@ -152,7 +152,8 @@ def main(tier_: str) -> int:
             urls = [('/dash/vod/bbb/bbb_v7/3.m4v', 0), ('/dash/vod/bbb/bbb_a1/time/352256.m4a', 0),
                     ('/dash/vod/bbb/bbb_t1/2.mp4', 0), ('/dash/live/bbb/bbb_v7/16094700.m4v?start=epoch&depth=60', 0),
                     ('/dash/vod/bbb/bbb_v7_enc/2.m4v?drm=all', 0),
-                    ('/dash/odvod/bbb/bbb_a1.m4a', 1), ('/dash/odvod/bbb/bbb_t1.mp4', 1)]
+                    ('/dash/odvod/bbb/bbb_a1.m4a', 1), ('/dash/odvod/bbb/bbb_t1.mp4', 1),
+                    ('/dash/odvod/bbb/bbb_v6.m4v', 1)]        # 1.8 MB: slices of more than a megabyte
             with da.app.app_context():
                 from dashlive.server import models
                 ppk = models.db.session.query(models.Period).first().pk
@@ -160,8 +161,11 @@ def main(tier_: str) -> int:
             usable = 0
             for url, mandatory in urls:
                 if mandatory:
-                    fr = c.get(url, headers={'Range': 'bytes=0-'})
-                    full = fr.data if fr.status_code == 206 else None
+                    # the reference bytes of an on-demand resource are the stored file itself, not a response
+                    fr = c.get(url, headers={'Range': 'bytes=0-0'})
+                    stem = url.rsplit('/', 1)[-1].split('.')[0]
+                    disk = da.blob_folder / 'bbb' / f'{stem}.mp4'
+                    full = disk.read_bytes() if fr.status_code == 206 and disk.exists() else None
                 else:
                     fr = c.get(url)
                     full = fr.data if fr.status_code == 200 else None
@@ -194,7 +198,7 @@ def main(tier_: str) -> int:
                              'exc': type(err).__name__}
                     lines.append({'tid': tid, 'layer': 'http', 'h': classify(raw), 'L': L, 'mandatory': mandatory,
                                   'raw': raw if raw is not None else '(absent)', 'url': url, 'r': r})
-            if usable < 6:
+            if usable < 7:
                 raise MachineryFailure(f'only {usable} range-capable URLs usable: {out.notes}')
         vs, st = validate_trace('HttpRangeTrace', lines, workdir=d, chunk=5000, parallel=4)
         drift = 0
